@@ -64,6 +64,30 @@ def register(add, parse, find_func, const_int, rat_of, ShapeError, module_assign
                                                   for f in n.finalbody for a in ast.walk(f)) for n in ast.walk(run))
     add("coreRunResetsTriggers", "Bool", "true" if (resets_all and restores) else "false",
         "Actuator.run starts every installed trigger afresh (after initialize(), before the first bar) and restores strategy.triggers afterwards")
+    # how `run` remembers the list it hands back: `<name> = list(<…>.triggers)` / `.copy()` / `[:]` (a NEW list: what initialize() appends to
+    # strategy.triggers afterwards is not in it) or `<name> = <…>.triggers` (the very list object initialize() appends to).  E-7 / seeded C02-m7.
+    saved_names = {getattr(a.value, "id", None) for n in ast.walk(run) if isinstance(n, ast.Try) for f in n.finalbody for a in ast.walk(f)
+                   if isinstance(a, ast.Assign) and getattr(a.targets[0], "attr", "") == "triggers"}
+    by_copy = None
+    for n in ast.walk(run):
+        if isinstance(n, ast.Assign) and getattr(n.targets[0], "id", None) in saved_names and n.targets[0].id is not None:
+            v = n.value
+            if isinstance(v, ast.Call) and ((getattr(v.func, "id", "") in ("list", "tuple") and len(v.args) == 1 and getattr(v.args[0], "attr", "") == "triggers")
+                                            or (getattr(v.func, "attr", "") == "copy" and getattr(v.func.value, "attr", "") == "triggers")
+                                            or (getattr(v.func, "attr", getattr(v.func, "id", "")) in ("copy", "deepcopy") and v.args
+                                                and getattr(v.args[0], "attr", "") == "triggers" and getattr(v.func, "attr", "") != "deepcopy"
+                                                and getattr(v.func, "id", "") != "deepcopy")):
+                by_copy = True
+            elif isinstance(v, ast.Subscript) and getattr(v.value, "attr", "") == "triggers" and isinstance(v.slice, ast.Slice) \
+                    and v.slice.lower is None and v.slice.upper is None and v.slice.step is None:
+                by_copy = True
+            elif isinstance(v, ast.Attribute) and v.attr == "triggers":
+                by_copy = False
+            else:
+                raise ShapeError("Actuator.run: the trigger list handed back in `finally` is saved in a way this extractor does not know: "
+                                 + ast.unparse(n))
+    add("coreRunSavesTriggerListByCopy", "Bool", "true" if (restores and by_copy) else "false",
+        "Actuator.run saves a COPY of strategy.triggers (list(...)) before _run and hands that copy back: triggers appended by initialize() are not in it")
     add("coreRunResetsGivenTriggersOnly", "Bool", "true" if (resets_given and not resets_all and restores) else "false",
         "Actuator.run resets only the triggers installed before the run (those installed by initialize() keep their state)")
     # --- how a run ends when a hook raises (C05) and how the trigger loop iterates (C18) -------------------------------------------------
